@@ -38,6 +38,9 @@ type BScript struct {
 	// Poison: a batch fails iff it carries an item with one of these ids
 	// (content-determined outcome, so the oracle is schedule-independent).
 	Poison []int64
+	// StaggerUS: producers of a wave are started this many microseconds apart (0: together).  It only makes one
+	// arrival order likely; the oracle never depends on it.
+	StaggerUS int `json:",omitempty"`
 }
 
 func (s *BScript) asMS() *MSScript {
@@ -48,10 +51,19 @@ func (s *BScript) asMS() *MSScript {
 	return ms
 }
 
-func genB(t *rapid.T) BScript {
+func genB(t *rapid.T) BScript { return genBMode(t, false) }
+
+// genBMergePath: merge-path histories only, mostly with the bytes sizer
+func genBMergePath(t *rapid.T) BScript { return genBMode(t, true) }
+
+func genBMode(t *rapid.T, onlyMergePath bool) BScript {
+	sizers := []string{"items", "items", "bytes"}
+	if onlyMergePath {
+		sizers = []string{"items", "bytes", "bytes", "bytes"}
+	}
 	s := BScript{
 		Signal:    rapid.SampledFrom(sig.All).Draw(t, "signal"),
-		Sizer:     rapid.SampledFrom([]string{"items", "items", "bytes"}).Draw(t, "sizer"),
+		Sizer:     rapid.SampledFrom(sizers).Draw(t, "sizer"),
 		FlushMS:   rapid.SampledFrom([]int{15, 40, 60000}).Draw(t, "flushms"),
 		Consumers: rapid.IntRange(1, 3).Draw(t, "consumers"),
 	}
@@ -60,14 +72,35 @@ func genB(t *rapid.T) BScript {
 	var next int64 = 1
 	total, totalBytes, maxAlone := 0, 0, 0
 	nw := rapid.IntRange(1, 3).Draw(t, "waves")
+	// merge-path histories (one case in three): one consumer and one wave of 3-4 requests arriving one after the
+	// other, min_size = max_size placed inside the SECOND request: the first request stays pending, the second is
+	// merged into it and split, its remainder becomes the pending batch on the merge path, the third meets that
+	// remainder (and, when its first item does not fit, leaves it unchanged); failures are placed in the second request
+	mergePath := onlyMergePath || rapid.IntRange(0, 2).Draw(t, "mergepath") == 0
+	if mergePath {
+		nw = 1
+		s.Consumers = 1
+		s.StaggerUS = 1500
+		s.FlushMS = 120
+		if onlyMergePath {
+			s.StaggerUS, s.FlushMS = 600, 40
+		}
+	}
+	var firstID, lens, counts []int
 	for w := 0; w < nw; w++ {
 		var wave [][]byte
 		np := rapid.IntRange(1, 4).Draw(t, "producers")
+		if mergePath {
+			np = rapid.IntRange(3, 4).Draw(t, "producers3")
+		}
 		for i := 0; i < np; i++ {
+			firstID = append(firstID, int(next))
 			b := sig.Gen(t, s.Signal, o, &next)
 			wave = append(wave, b)
+			lens = append(lens, len(b))
 			v, _ := sig.Decode(s.Signal, b)
 			total += sig.Count(v)
+			counts = append(counts, sig.Count(v))
 			totalBytes += len(b)
 			if s.Sizer == "bytes" {
 				for _, sz := range sig.StandaloneSizes(v) {
@@ -99,6 +132,24 @@ func genB(t *rapid.T) BScript {
 		s.Max = rapid.IntRange(lo, lo+unit+2).Draw(t, "max")
 		s.Min = rapid.IntRange(0, s.Max).Draw(t, "min")
 	}
+	if mergePath {
+		num := rapid.IntRange(2, 6).Draw(t, "cut8") // the cut falls at 2/8 .. 6/8 of the second request
+		if s.Sizer == "bytes" {
+			s.Max = lens[0] + lens[1]*num/8
+			if s.Max < lo && unit != 0 {
+				s.Max = lo
+			}
+		} else {
+			s.Max = counts[0] + counts[1]*num/8
+		}
+		if s.Max < 1 {
+			s.Max = 1
+		}
+		s.Min = s.Max
+		if rapid.IntRange(0, 3).Draw(t, "minbelow") == 0 {
+			s.Min = rapid.IntRange(s.Max*3/4, s.Max).Draw(t, "min2")
+		}
+	}
 	if s.FlushMS == 60000 {
 		// nothing but size can flush: make sure the last items do get flushed by
 		// shutdown only when producers are not blocked on them -> with
@@ -110,6 +161,14 @@ func genB(t *rapid.T) BScript {
 		np := rapid.IntRange(0, 2).Draw(t, "npoison")
 		for i := 0; i < np; i++ {
 			s.Poison = append(s.Poison, int64(rapid.IntRange(1, int(next-1)).Draw(t, "poison")))
+		}
+		if mergePath && firstID[2] > firstID[1] && rapid.IntRange(0, 4).Draw(t, "poison2nd") > 0 {
+			// the failing item sits in the second request, mostly near its end (the part that becomes the remainder)
+			lo2, hi2 := firstID[1], firstID[2]-1
+			if rapid.Bool().Draw(t, "tail") {
+				lo2 = (lo2 + hi2 + 1) / 2
+			}
+			s.Poison = []int64{int64(rapid.IntRange(lo2, hi2).Draw(t, "poison2"))}
 		}
 	}
 	return s
@@ -224,6 +283,9 @@ func runBInner(s *BScript) (nontrivial bool, f *vt.Finding) {
 			}
 			reqs = append(reqs, rr)
 			wg.Add(1)
+			if s.StaggerUS > 0 && len(reqs) > 1 {
+				time.Sleep(time.Duration(s.StaggerUS) * time.Microsecond)
+			}
 			go func(p []byte, rr *reqRec) {
 				defer wg.Done()
 				rr.err = exp.ConsumeBytes(context.Background(), p)
@@ -325,8 +387,24 @@ func runBInner(s *BScript) (nontrivial bool, f *vt.Finding) {
 	if len(s.Poison) > 0 {
 		cB.Class("with-failures")
 	}
+	if s.StaggerUS > 0 {
+		cB.Class("merge-path-history")
+	}
 	sort.Slice(batches, func(i, j int) bool { return batches[i].endSeq < batches[j].endSeq })
 	return multi || splitReq, nil
+}
+
+var cBM = vt.New("C04", "batcher-merge-path")
+
+func TestBatcherMergePath(t *testing.T) {
+	cBM.ReplayRepeat = 200
+	runBM := func(s BScript) (bool, string, *vt.Finding) {
+		save := cB
+		cB = cBM
+		defer func() { cB = save }()
+		return runB(s)
+	}
+	vt.Run(t, cBM, vt.N(1200, 40000), genBMergePath, runBM)
 }
 
 func TestBatcher(t *testing.T) {
